@@ -14,6 +14,8 @@ from typing import Optional, Tuple
 from jedi.inference.compiled.getattr_static import getattr_static
 
 ALLOWED_GETITEM_TYPES = (str, list, tuple, bytes, bytearray, dict)
+ALLOWED_BOOL_TYPES = (bool, int, float, complex, str, bytes, bytearray, list,
+                      tuple, dict, set, frozenset, range, type(None))
 
 MethodDescriptorType = type(str.replace)
 # These are not considered classes and access is granted even though they have
@@ -178,7 +180,11 @@ class DirectObjectAccess:
     def _create_access_path(self, obj) -> AccessPath:
         return create_access_path(self._inference_state, obj)
 
-    def py__bool__(self):
+    def py__bool__(self, *, safe=True):
+        if safe and type(self._obj) not in ALLOWED_BOOL_TYPES:
+            # Get rid of side effects, we won't call custom `__bool__` or
+            # `__len__` methods. None means that there's no certainty.
+            return None
         return bool(self._obj)
 
     def py__file__(self) -> Optional[Path]:
